@@ -54,14 +54,18 @@ class SymBuilder:
 
 def read_builder(w, st, cell):
     """post-state of a PasetoBuilder cell -> dict of terms"""
-    v = st.store[cell]; f = dict(zip(w.fields('PasetoBuilder'), v[3]))
+    v = st.store[cell]
+    if isinstance(v, tuple) and len(v) > 1 and v[1] == 'Havocked': raise Unsupported('the builder was handed by `&mut` to a function whose body was abstracted: its state is unknown afterwards')
+    f = dict(zip(w.fields('PasetoBuilder'), v[3]))
     g = dict(zip(w.fields('GenericBuilder'), f['builder'][3]))
     return {'P': g['claims'][1], 'V': g['claims'][2], 'TL': f['top_level_claims'][1], 'DUP': f['dup_top_level_found'][1][0], 'DUPK': f['dup_top_level_found'][1][1],
             'NE': f['non_expiring_token'], 'footer': g['footer'], 'assertion': g['implicit_assertion']}
 
 
 def read_generic_builder(w, st, cell):
-    v = st.store[cell]; g = dict(zip(w.fields('GenericBuilder'), v[3]))
+    v = st.store[cell]
+    if isinstance(v, tuple) and len(v) > 1 and v[1] == 'Havocked': raise Unsupported('the builder was handed by `&mut` to a function whose body was abstracted: its state is unknown afterwards')
+    g = dict(zip(w.fields('GenericBuilder'), v[3]))
     return {'P': g['claims'][1], 'V': g['claims'][2], 'footer': g['footer'], 'assertion': g['implicit_assertion']}
 
 
